@@ -20,7 +20,11 @@ RT_CLASS = {1: "ApplyWorkspaceEditResponse", 2: "ShowDocumentResponse", 3: "Show
 MISSING = "__missing__"
 PAYLOADS = [{"applied": True, "success": True, "title": "T"}, None, [{"uri": "file:///a", "name": "a"}],
             "str", 17, {"applied": False, "failureReason": "r"}, MISSING, [], {"title": "only"},
-            {"success": False}]
+            {"success": False},
+            {"start": {"line": 1, "ch": 2}, "end": {"line": 3, "ch": 4}, "tag": "x"},
+            {"tag": "y", "end": {"ch": 40, "line": 30}, "start": {"ch": 20, "line": 10}},
+            {"end": {"line": 300, "ch": 400}, "tag": "z", "start": {"ch": 200, "line": 100}}]
+SHAPED = [10, 11, 12]      # one key set, three member orders: a decoded object must match BY NAME
 MSGS = ["", "m", "Internal Error", "boom é\U0001F60B"]
 ABSENT = "__absent__"
 DATA = [ABSENT, {"k": [1, "x"]}, "d", 0, False, ""]
@@ -336,6 +340,57 @@ class _Req:
         return [1, canon_value(f.result())]
 
 
+def frame_bytes(obj, n=0):
+    body = json.dumps(obj).encode("utf-8")
+    head = b"Content-Length: %d\r\n" % len(body)
+    if n % 3 == 1:
+        head += b"Content-Type: application/vscode-jsonrpc; charset=utf-8\r\n"
+    return head + b"\r\n" + body
+
+
+class _Pipe:
+    """A blocking byte stream for pygls.io_.run (readline / read), fed by the script."""
+
+    def __init__(self):
+        self.buf = bytearray()
+        self.cond = threading.Condition()
+        self.eof = False
+        self.waiting = False
+
+    def feed(self, data):
+        with self.cond:
+            self.buf += data
+            self.waiting = False
+            self.cond.notify_all()
+
+    def close(self):
+        with self.cond:
+            self.eof = True
+            self.cond.notify_all()
+
+    def _take(self, ready, cut):
+        with self.cond:
+            while not ready() and not self.eof:
+                self.waiting = True
+                self.cond.notify_all()
+                self.cond.wait(0.05)
+            n = cut()
+            data = bytes(self.buf[:n])
+            del self.buf[:n]
+            return data
+
+    def readline(self):
+        return self._take(lambda: b"\n" in self.buf,
+                          lambda: self.buf.index(b"\n") + 1 if b"\n" in self.buf else len(self.buf))
+
+    def read(self, n):
+        return self._take(lambda: len(self.buf) >= n, lambda: min(n, len(self.buf)))
+
+    def wait_idle(self, timeout=5.0):
+        with self.cond:
+            self.cond.wait_for(lambda: self.waiting, timeout)
+
+
 def reply_obj(real, rep):
     """The frame of a scripted reply ["res", p] / ["err", code, msg, data] for the id `real`."""
     obj = {"jsonrpc": "2.0", "id": real}
@@ -354,6 +409,35 @@ async def _run_script(case, loop):
     import concurrent.futures, queue
     ep = Endpoint(loop)
     inbox = queue.Queue()
+    # how the peer's frames reach the protocol: directly (structure_message + handle_message inside
+    # the read loop's try), or as Content-Length frames through the real read loops of pygls/io_.py
+    mode = case.get("stream")
+    stop_event = threading.Event()
+    nfed = [0]
+    sreader = stask = pipe = sthread = None
+    if mode == "a":
+        from pygls.io_ import run_async
+        sreader = asyncio.StreamReader()
+        stask = loop.create_task(run_async(stop_event, sreader, ep.protocol, None, ep.server._report_server_error))
+
+        def deliver(obj):
+            nfed[0] += 1
+            sreader.feed_data(frame_bytes(obj, nfed[0]))
+    elif mode == "s":
+        from pygls.io_ import run as run_sync
+        pipe = _Pipe()
+        sthread = threading.Thread(target=run_sync, args=(stop_event, pipe, ep.protocol, None,
+                                                          ep.server._report_server_error), daemon=True)
+        sthread.start()
+
+        def deliver(obj):
+            nfed[0] += 1
+            with pipe.cond:
+                pipe.waiting = False
+            pipe.feed(frame_bytes(obj, nfed[0]))
+            pipe.wait_idle()
+    else:
+        deliver = ep.feed
     proto = ep.protocol
     reqs, uuids, trace = [], [], []
     hooks_out = 0
@@ -481,25 +565,28 @@ async def _run_script(case, loop):
                 if mid is None and len(written) > before:
                     uuids.append(written[before]["id"])      # (follow-ups sent by callbacks come after it)
             elif k == "res":
-                ep.feed(reply_obj(real_id(e[1]), ["res", e[2]]))
+                deliver(reply_obj(real_id(e[1]), ["res", e[2]]))
             elif k == "err":
-                ep.feed(reply_obj(real_id(e[1]), ["err", e[2], e[3], e[4]]))
+                deliver(reply_obj(real_id(e[1]), ["err", e[2], e[3], e[4]]))
             elif k == "cancel":
                 if e[1] < len(reqs) and reqs[e[1]].fut is not None:
                     reqs[e[1]].fut.cancel()
             elif k == "inreply":
-                ep.feed({"jsonrpc": "2.0", "id": real_id(e[1]), "method": "custom/in_sync", "params": {}})
+                deliver({"jsonrpc": "2.0", "id": real_id(e[1]), "method": "custom/in_sync", "params": {}})
             elif k == "inasync":
                 g = ngate[0]; ngate[0] += 1
-                ep.feed({"jsonrpc": "2.0", "id": real_id(e[1]), "method": "custom/in_async", "params": {"g": g}})
-                await _spin(2)
+                deliver({"jsonrpc": "2.0", "id": real_id(e[1]), "method": "custom/in_async", "params": {"g": g}})
+                await _spin(5)
                 ep.gates[("id", core.canon(e[1]))] = ep.gates.get(g)
             elif k == "indone":
                 g = ep.gates.pop(("id", core.canon(e[1])), None)
                 if g is not None and not g.done():
                     g.set_result(bool(e[2]))
+            elif k == "note":
+                # an incoming notification nobody handles whose params have the shape of a payload
+                deliver({"jsonrpc": "2.0", "method": "custom/note", "params": PAYLOADS[e[1]]})
             elif k == "incancel":
-                ep.feed({"jsonrpc": "2.0", "method": "$/cancelRequest", "params": {"id": real_id(e[1])}})
+                deliver({"jsonrpc": "2.0", "method": "$/cancelRequest", "params": {"id": real_id(e[1])}})
             ep.writer.react = None
             await _spin()
             if k not in IN_EVENTS:
@@ -550,6 +637,15 @@ async def _run_script(case, loop):
             if g is not None and not g.done():
                 g.cancel()
         await _spin(3)
+        if sreader is not None:
+            sreader.feed_eof()
+            try:
+                await asyncio.wait_for(stask, 2)
+            except BaseException:
+                pass
+        if pipe is not None:
+            pipe.close()
+            sthread.join(2)
         ep.close()
 
 
@@ -572,6 +668,14 @@ def wellformed(case):
     """Scripts the harness can realise: responses / cancels refer to what exists, an incoming
     async request is finished at most once, and only while it is alive."""
     nsend, nuu, live = 0, 0, set()
+    # callbacks of an asyncio future (awaiting requester) run deferred, via call_soon: user code must
+    # not cancel such a request from inside another callback (the order of the follow-ups would be
+    # the loop's, not the one of concurrent.futures the model describes)
+    tops = [e for e in case["evs"] if e[0] == "send"]
+    deferred = {j for j, e in enumerate(tops) if e[4] == "a" and cb_style(e[2])[0] is not None}
+    for e in tops:
+        if any(op[0] == "c" and op[1] in deferred for op in cb_style(e[2])[1]):
+            return False
     for e in case["evs"]:
         k = e[0]
         if k == "send":
@@ -588,6 +692,8 @@ def wellformed(case):
         elif k == "cancel":
             if e[1] >= nsend:
                 return False
+        elif k == "note":
+            continue
         else:
             r = e[1]
             if r[0] == "u" and r[1] >= nuu:
@@ -715,6 +821,17 @@ class C05(core.Property):
                 # the caller cancels a polling request: its add_done_callback fires (re-send), callback= does not
                 cases.append({"evs": [["send", mi, [style, [["s", mi, P7]]], P7, kind], ["cancel", 0],
                                       ["res", P7, res0(mi)[2]], ["res", P7, res0(mi)[2]]]})
+        # (1d) untyped methods (no registered result type: the result is decoded generically): objects
+        #      with one key set in different member orders, nested, within one history and across
+        #      histories, and the same shapes arriving as params of incoming notifications in between
+        for n, perm in enumerate(itertools.permutations(SHAPED)):
+            kinds = "pta"[n % 3] + "pta"[(n + 1) % 3] + "p"
+            evs = [["send", 6, 0 if kinds[0] == "a" else 1, None, kinds[0]], ["note", perm[1]],
+                   ["send", 7, 0 if kinds[1] == "a" else 1, ["s", "a"], kinds[1]], ["res", ["u", 0], perm[0]],
+                   ["send", 6, 1, ["i", 7], "p"], ["note", perm[2]], ["res", ["i", 7], perm[1]],
+                   ["res", ["s", "a"], perm[2]], ["note", perm[0]]]
+            cases.append({"evs": evs})
+            cases.append({"evs": [["note", perm[0]], ["send", 7, 1, None, "p"], ["res", ["u", 0], perm[1]]]})
         # (2) k outstanding, one reply each, every order of the replies
         for k in range(1, chk.n(3, 4) + 1):
             for rep in range(chk.n(3, 12)):
@@ -723,10 +840,28 @@ class C05(core.Property):
                 for perm in itertools.permutations(range(k)):
                     cases.append({"evs": sends + [replies[j] for j in perm]})
         # (3) random histories
-        for _ in range(chk.n(1150, 15000)):
+        for _ in range(chk.n(950, 15000)):
             cases.append(self._random(rng))
         cases = [c for c in cases if wellformed(c)]
+        # the transport: 3 histories in 10 arrive as Content-Length frames through the real
+        # run_async over a StreamReader, 1 in 10 (when no coroutine is involved) through run
+        for n, c in enumerate(cases):
+            if "stream" in c:
+                continue
+            if n % 10 in (1, 4, 7):
+                c["stream"] = "a"
+            elif n % 10 == 9 and self._sync_ok(c):
+                c["stream"] = "s"
         return cases
+
+    @staticmethod
+    def _sync_ok(c):
+        for e in c["evs"]:
+            if e[0] in ("inasync", "indone"):
+                return False
+            if e[0] == "send" and (e[4] == "a" or (len(e) > 5 and e[5] is not None and e[5][0] == "l")):
+                return False
+        return True
 
     def _sends(self, rng, k, given_p=0.4):
         ms = rng.sample(range(len(METHODS)), min(k, len(METHODS))) + [rng.randrange(len(METHODS)) for _ in range(max(0, k - len(METHODS)))]
@@ -836,7 +971,7 @@ class C05(core.Property):
                 if len(e) > 5 and e[5] is not None:
                     rep = e[5][1]
                     evs.append(["res", ref, rep[1]] if rep[0] == "res" else ["err", ref, rep[1], rep[2], rep[3]])
-            else:
+            elif e[0] != "note":          # a notification nobody handles: no event of the model
                 evs.append(e)
             keep.append(len(evs) - 1)
         return evs, keep
@@ -854,7 +989,7 @@ class C05(core.Property):
             fk, rk = t.lst(t.id), t.lst(t.id)
             return [futs, errs, nout, sort_ids(fk), sort_ids(rk)]
         trace = t.lst(digest)
-        trace = [trace[j] for j in self.expand(c)[1]]
+        trace = [trace[j] if j >= 0 else [[], 0, 0, [], []] for j in self.expand(c)[1]]
         final = t.lst(lambda: [t.fstate(), t.int()])
 
         def wire():
@@ -927,8 +1062,11 @@ class C05(core.Property):
 
     def shrink(self, c):
         evs = c["evs"]
+        if any((e[0] in ("res",) and e[2] in SHAPED) or e[0] == "note" for e in evs):
+            return          # judged against module-level state of the process (class caches): a smaller
+                            # candidate may fail only because of what earlier cases left behind
         for i in range(len(evs)):
-            d = {"evs": evs[:i] + evs[i + 1:]}
+            d = dict(c); d["evs"] = evs[:i] + evs[i + 1:]
             if evs[i][0] == "send":
                 # dropping a send renumbers handles and uuids: drop what refers to it as well
                 continue
@@ -937,11 +1075,13 @@ class C05(core.Property):
         for i in range(len(evs)):
             if evs[i][0] == "send" and len(evs[i]) > 5 and evs[i][5] is not None and evs[i][5][0] == "l":
                 e = list(evs[i]); e[5] = ["w", e[5][1]]
-                yield {"evs": evs[:i] + [e] + evs[i + 1:]}
+                yield dict(c, evs=evs[:i] + [e] + evs[i + 1:])
         for i in range(len(evs)):
             if evs[i][0] == "send" and evs[i][4] != "p":
                 e = list(evs[i]); e[4] = "p"
-                yield {"evs": evs[:i] + [e] + evs[i + 1:]}
+                yield dict(c, evs=evs[:i] + [e] + evs[i + 1:])
+        if c.get("stream"):
+            yield {"evs": evs}
 
     def search(self, chk):
         """Bounded scope evaluated on the implementation against S: one request, every reply kind."""
